@@ -90,3 +90,32 @@ Theorem C17_kp_rot90_four_turns : forall f k ax, In ax planes -> angle_ok k ->
              kp_rot90_in (rot_frame ax 1 f) k3 1 ax) (Ok k).
 Proof. exact kp_rot90_four. Qed.
 Print Assumptions C17_kp_rot90_four_turns.
+
+(* a pad followed by the inverse crop (generated PadIfNeeded and Crop methods): boxes, keypoints (incl. angle and
+   scale) and voxels return to their original values, for every frame and all six pad amounts *)
+From Coq Require Import ZArith String.
+From DV.model Require Import Arrays NpRt.
+From DV.gen Require Import Gen_crops_functional Gen_geom_arrays Gen_cls_geom Gen_cls_crops.
+From DV.proofs Require Import PadCropInv Cls_lattice2.
+Theorem C17_pad_then_inverse_crop :
+  (forall bm mv v b pt pb pl pr pf pk r c s,
+     (0 < r)%Z -> (0 < c)%Z -> (0 < s)%Z -> (0 <= pt)%Z -> (0 <= pb)%Z -> (0 <= pl)%Z -> (0 <= pr)%Z -> (0 <= pf)%Z -> (0 <= pk)%Z ->
+     exists b1 b2,
+       PadIfNeeded_apply_to_bbox bm mv v b pt pb pl pr pf pk c r s = Ok b1 /\
+       Crop_apply_to_bbox (pl + c) pl (pt + r) pt (pf + s) pf b1 (c + pl + pr) (r + pt + pb) (s + pf + pk) = Ok b2 /\
+       box_eq b2 b) /\
+  (forall bm mv v k pt pb pl pr pf pk r c s r' c' s',
+     kp_eq (Crop_apply_to_keypoint (pl + c) pl (pt + r) pt (pf + s) pf
+              (PadIfNeeded_apply_to_keypoint bm mv v k pt pb pl pr pf pk c r s) c' r' s') k) /\
+  (forall v r c s pt pb pl pr pf pk val,
+     vshape v = (r, c, s) -> (0 < r)%Z -> (0 < c)%Z -> (0 < s)%Z -> pad_ok pt pb pl pr pf pk ->
+     exists v1 v2, pad_with_params v pt pb pl pr pf pk "constant" val = Ok v1 /\
+                   crop v1 pl pt pf (pl + c) (pt + r) (pf + s) = Ok v2 /\
+                   vshape v2 = vshape v /\ forall o, in_range (vshape v) o = true -> vat v2 o = vat v o).
+Proof.
+  repeat split.
+  - exact pad_then_inverse_crop_box.
+  - exact pad_then_inverse_crop_keypoint.
+  - exact pad_then_inverse_crop_voxels.
+Qed.
+Print Assumptions C17_pad_then_inverse_crop.
